@@ -182,6 +182,7 @@ enum Prim {
     BurstInvalidate { n: u32 },
     DebugFmt,
     IterInvalidateAll { after: u8 },
+    Handle { sel: u8 },
 }
 
 fn expand(ops: &[Op]) -> Vec<(usize, Prim)> {
@@ -215,6 +216,7 @@ fn expand(ops: &[Op]) -> Vec<(usize, Prim)> {
             Op::BurstInvalidate { n } => v.push((i, Prim::BurstInvalidate { n })),
             Op::DebugFmt => v.push((i, Prim::DebugFmt)),
             Op::IterInvalidateAll { after } => v.push((i, Prim::IterInvalidateAll { after })),
+            Op::Handle { sel } => v.push((i, Prim::Handle { sel })),
         }
     }
     v
@@ -769,6 +771,13 @@ impl<'a> Exec<'a> {
                     self.results.push((step, "iter_invalidate_all".into()));
                 }
             }
+            Prim::Handle { sel } => {
+                let what = self.sub().handle_op(sel);
+                if what != "n/a" {
+                    self.stats.inc("handle_operations");
+                    self.tr(format!("handle: {what}"));
+                }
+            }
             Prim::DebugFmt => {
                 // the Debug output is an iteration: same oracle, under another entry point
                 let mut pairs = self.sub().debug_pairs();
@@ -1004,8 +1013,11 @@ impl<'a> Exec<'a> {
             self.stats.inc("burst_hit_full_write_queue");
         }
         self.tr(format!("burst of {n} {} (w={w}); maintenance runs inside the burst: {}", if gets { "gets" } else { "inserts" }, c.try_sync_won));
-        // predictive model cannot follow bursts
-        self.pred_ok = false;
+        // the lock-step model cannot follow bursts of inserts (bursts of lookups of
+        // absent keys leave the residents alone)
+        if !gets {
+            self.pred_ok = false;
+        }
         Ok(())
     }
 
@@ -1081,7 +1093,7 @@ impl<'a> Exec<'a> {
     ) -> Result<(), Violation> {
         let sync = self.is_sync();
         let quiescent_point = if sync { explicit_sync && post.quiescent() } else { true };
-        let is_time = matches!(prim, Prim::Advance { .. } | Prim::AdvanceTo { .. } | Prim::IterAdvance { .. });
+        let is_time = matches!(prim, Prim::Advance { .. } | Prim::AdvanceTo { .. } | Prim::IterAdvance { .. } | Prim::Handle { .. });
         if !is_time && !matches!(prim, Prim::Sync) {
             self.window.push(WindowOp { step, prim: prim.clone(), now: self.now, expired_before, matched });
         }
@@ -1488,7 +1500,7 @@ impl<'a> Exec<'a> {
             if let Some(d) = &decision {
                 decisions.push((d.0, d.1));
             }
-            let m_op = matches!(wop.prim, Prim::Insert { .. } | Prim::Get { .. } | Prim::Contains { .. } | Prim::Invalidate { .. });
+            let m_op = matches!(wop.prim, Prim::Insert { .. } | Prim::Get { .. } | Prim::Contains { .. } | Prim::Invalidate { .. } | Prim::Burst { gets: true, .. });
             if !sync && m_op {
                 for k in &wop.expired_before {
                     if let Some(pos) = rec.iter().position(|x| x.0 == *k) {
